@@ -276,7 +276,7 @@ KINDS = ("skip", "tok", "return", "continue", "reset_continue", "switch", "switc
 
 def lexer_text(d, lname="L"):
     """the lexer! invocation of a definition"""
-    has_fallible = any(r["kind"] in ("ok", "err") for (_, rules) in d["sets"] for r in rules)
+    has_fallible = any(r["kind"] in ("ok", "err") for (_, rules) in d["sets"] for r in rules) or d.get("form") in ("clone_pair", "ctor_pair")
     out = ["lexgen::lexer! {"] + (["    " + d["attrs"]] if d.get("attrs") else []) + ["    pub(crate) %s(Log) -> u8;" % lname]
     if has_fallible:
         out.append("    type Error = u8;")
@@ -452,7 +452,7 @@ def reference_fn(d, N, m):
 PRELUDE = r'''
 #[allow(unused_imports)]
 use lexgen_util::{Loc, LexerError, LexerErrorKind};
-use super::{ArrIter, N, Log, RefItem, RefOut, ghost_locs, rest_eq};
+use super::{ArrIter, N, Log, RefItem, RefOut, ghost_locs, rest_eq, consumed};
 #[cfg(kani)]
 use super::any_base;
 '''
@@ -468,7 +468,11 @@ pub struct ArrIter { pub a: [char; N], pub n: usize, pub i: usize }
 impl Iterator for ArrIter {
     type Item = char;
     fn next(&mut self) -> Option<char> { if self.i < self.n { let c = self.a[self.i]; self.i += 1; Some(c) } else { None } }
+    fn size_hint(&self) -> (usize, Option<usize>) { let r = if self.i <= self.n { self.n - self.i } else { 0 }; (r, Some(r)) }
 }
+/// number of characters the lexer has consumed: every clone of the iterator walks the same array, so the position determines
+/// the remaining input (Peekable::size_hint counts a buffered character as not yet consumed)
+pub fn consumed(it: &std::iter::Peekable<ArrIter>, n: usize) -> usize { let r = it.size_hint().0; if r <= n { n - r } else { 0 } }
 
 /// user state: a write-only log of action invocations (rule id, match_loc(), peek())
 #[derive(Clone, Copy, PartialEq, Eq, Debug)]
@@ -544,6 +548,27 @@ def harness_mod(d, N, m, unwind, stub_width=True, tags=None):
         entry_fn = "fn entry(_rs: u8) -> usize { 0 }"
     stub = "#[kani::stub(unicode_width::UnicodeWidthChar::width, crate::stub_width)]\n    " if stub_width else ""
     T = tags or {}
+    via = d.get("via")
+    pos_check = 'assert!(consumed(&lx.0.__iter, n) == r.pos, "[%s] input position after the call differs from the reference");' % T.get("pos", "C01 C02 C04 C05 C08 C11")
+    post = ""
+    symbolic_state = "let base = any_base();\n        let rs0: u8 = kani::any(); kani::assume((rs0 as usize) < %d);\n        let done0: bool = kani::any();" % len(set_names)
+    base_construct = "let mut lx = L::new_from_iter_with_state(ArrIter { a, n, i: 0 }, Log::default());\n        lx.0.__verif_set_locs(base);\n        %s\n        lx.0.__done = done0;" % enter_code
+    if via == "clone":
+        # C15: the lexer under test is a CLONE taken at the call boundary; the original must stay untouched by the clone's call
+        construct = base_construct.replace("let mut lx =", "let mut orig =").replace("lx.0.", "orig.0.").replace("lx.switch", "orig.switch") + \
+            "\n        let mut lx = orig.clone();\n        let orig_view = (orig.0.__state, orig.0.__initial_state, orig.0.__done, orig.0.match_loc(), orig.0.__iter.size_hint().0, orig.0.__verif_user_state().n);"
+        post = 'assert!(orig_view == (orig.0.__state, orig.0.__initial_state, orig.0.__done, orig.0.match_loc(), orig.0.__iter.size_hint().0, orig.0.__verif_user_state().n) && orig.0.__verif_last_match_is_none(), "[C15] a call on the clone changed the original");'
+    elif via == "str":
+        # C14: the lexer is built from a &str holding the same characters (fresh lexer: Init, not done, location zero)
+        construct = ("let mut s_bytes = [0u8; 4 * N + 4]; let mut s_len = 0usize;\n"
+                     "        { let mut k = 0; while k < N { if k < n { let l = a[k].encode_utf8(&mut s_bytes[s_len..s_len + 4]).len(); s_len += l; } k += 1; } }\n"
+                     "        // the buffer holds exactly the UTF-8 encodings written by char::encode_utf8 (no validation loop needed)\n"
+                     "        let s_str: &str = unsafe { std::str::from_utf8_unchecked(&s_bytes[..s_len]) };\n"
+                     "        let mut lx = L::new_with_state(s_str, Log::default());")
+        pos_check = ""
+        symbolic_state = "let base = Loc { line: 0, col: 0, byte_idx: 0 }; let rs0: u8 = 0; let done0 = false;"
+    else:
+        construct = base_construct
     has_fallible = any(r["kind"] in ("ok", "err") for (_, rules) in d["sets"] for r in rules)
     custom_check = "matches!(er.kind, LexerErrorKind::Custom(x) if x == c)" if has_fallible else "false"
 
@@ -566,10 +591,7 @@ pub mod %(name)s {
         let r = reference(&a, n, rs0, done0, &locs);
         #[cfg(kani)]
         kani::assume(r.within);                       // at most %(m)d lexemes handled in this call (bound m)
-        let mut lx = L::new_from_iter_with_state(ArrIter { a, n, i: 0 }, Log::default());
-        lx.0.__verif_set_locs(base);
-        %(enter)s
-        lx.0.__done = done0;
+        %(construct)s
         let item = lx.next();
         #[cfg(not(kani))]
         if verbose {
@@ -612,7 +634,7 @@ pub mod %(name)s {
         }
         // ---- the state between two calls
         assert!(lx.0.__state == entry(r.rs) && lx.0.__initial_state == entry(r.rs), "[%(t_rs)s] active rule set after the call differs from the reference");
-        assert!(rest_eq(&lx.0.__iter, &a, n, r.pos), "[%(t_pos)s] input position after the call differs from the reference");
+        %(pos_check)s
         assert!(lx.0.match_loc() == (locs[r.ms], locs[r.pos]), "[%(t_match)s] current match after the call differs from the reference");
         assert!(lx.0.__done == r.done, "[%(t_done)s] end-of-input flag differs from the reference");
         assert!(lx.0.__verif_last_match_is_none(), "[%(t_lm)s] a saved accepting position survives the call");
@@ -620,6 +642,7 @@ pub mod %(name)s {
         let lg = *lx.0.state();
         assert!(lg.n == r.log.n, "[%(t_logn)s] number of action invocations differs from the reference");
         assert!(lg == r.log, "[%(t_log)s] action log (rule, match_loc, peek) differs from the reference");
+        %(post)s
     }
 
     #[cfg(kani)]
@@ -628,20 +651,32 @@ pub mod %(name)s {
     %(stub)spub fn step() {
         let a: [char; N] = kani::any();
         let n: usize = kani::any(); kani::assume(n <= N);
-        let base = any_base();
-        let rs0: u8 = kani::any(); kani::assume((rs0 as usize) < %(nsets)d);
-        let done0: bool = kani::any();
+        %(symbolic_state)s
         check(a, n, base, rs0, done0, false);
     }
 }
 """ % dict(name=name, prelude=PRELUDE, lexer=lexer_text(d), reference=reference_fn(d, N, m), entry_fn=entry_fn, unwind=unwind, stub=stub,
-           nsets=len(set_names), m=m, enter=enter_code, custom_check=custom_check,
+           nsets=len(set_names), m=m, enter=enter_code, custom_check=custom_check, construct=construct, pos_check=pos_check, post=post,
+           symbolic_state=symbolic_state,
            t_tok=tag("tok", "C01 C02 C03 C04 C11"), t_span=tag("span", "C01 C02 C04 C06 C11"), t_errkind=tag("errkind", "C07"),
            t_errloc=tag("errloc", "C07 C06"), t_custom=tag("custom", "C07 C10"), t_customloc=tag("customloc", "C07 C06"),
            t_none=tag("none", "C05 C01 C02"), t_extra=tag("extra", "C05"),
            t_okerr=tag("okerr", "C07 C01 C02 C04 C11"), t_errok=tag("errok", "C07 C01 C02 C04 C11"), t_rs=tag("rs", "C03 C08"),
            t_pos=tag("pos", "C01 C02 C04 C05 C08 C11"), t_match=tag("match", "C06 C08 C10"), t_done=tag("done", "C05"),
            t_lm=tag("lm", "C01 C10"), t_logn=tag("logn", "C10 C01"), t_log=tag("log", "C10 C06 C01"))
+
+
+PROJ = """
+    /// items compared through a projection (Kani 0.68 cannot compile the derived PartialEq of LexerErrorKind for every error type)
+    fn proj(i: &Option<Result<(Loc, u8, Loc), LexerError<u8>>>) -> (u8, Loc, u8, Loc) {
+        let z = Loc { line: 0, col: 0, byte_idx: 0 };
+        match i {
+            None => (0, z, 0, z),
+            Some(Ok((s, t, e))) => (1, *s, *t, *e),
+            Some(Err(er)) => match er.kind { LexerErrorKind::InvalidToken => (2, er.location, 0, z), LexerErrorKind::Custom(c) => (3, er.location, c, z) },
+        }
+    }
+"""
 
 
 def _enter_code(d):
@@ -668,8 +703,7 @@ pub mod %(name)s {
         let item = lx.next();      // must return: unwinding assertions are on
         #[cfg(not(kani))]
         if verbose { println!("input {:?} (n={}), rule set {}, done {} -> returned; done flag now {}", &a[..n], n, rs0, done0, lx.0.__done); }
-        let mut consumed = 0usize;
-        let mut k = 0; while k <= N { if k <= n && rest_eq(&lx.0.__iter, &a, n, k) { consumed = k; } k += 1; }
+        let consumed = consumed(&lx.0.__iter, n);
         if item.is_some() {
             assert!(consumed >= 1 || (lx.0.__done && !done0), "[C09] an item was produced without consuming a character or the end-of-input event");
         }
@@ -691,7 +725,7 @@ pub mod %(name)s {
         check(a, n, base, rs0, done0, false);
     }
 }
-""" % dict(name=d["name"], prelude=PRELUDE.replace("RefItem, RefOut, ghost_locs, ", ""), lexer=lexer_text(d), enter=enter, nsets=nsets, unwind=unwind)
+""" % dict(name=d["name"], prelude=PRELUDE.replace("RefItem, RefOut, ghost_locs, rest_eq, ", ""), lexer=lexer_text(d), enter=enter, nsets=nsets, unwind=unwind)
 
 
 def clone_mod(d, N, unwind):
@@ -701,29 +735,29 @@ def clone_mod(d, N, unwind):
 pub mod %(name)s {
     %(prelude)s
     %(lexer)s
-
-    fn view(lx: &L<'static, ArrIter>, a: &[char; N], n: usize) -> (usize, usize, bool, (Loc, Loc), bool, usize) {
-        let mut pos = 0usize; let mut k = 0; while k <= N { if k <= n && rest_eq(&lx.0.__iter, a, n, k) { pos = k; } k += 1; }
-        (lx.0.__state, lx.0.__initial_state, lx.0.__done, lx.0.match_loc(), lx.0.__verif_last_match_is_none(), pos)
+%(proj)s
+    /// observable equality of two lexers: registers, current match, done flag, saved match, remaining input, user state
+    fn same(x: &L<'static, ArrIter>, y: &L<'static, ArrIter>) -> bool {
+        x.0.__iter.size_hint().0 == y.0.__iter.size_hint().0 && x.0.__state == y.0.__state && x.0.__initial_state == y.0.__initial_state && x.0.__done == y.0.__done && x.0.match_loc() == y.0.match_loc()
+           && x.0.__verif_last_match_is_none() == y.0.__verif_last_match_is_none() && x.0.__verif_user_state() == y.0.__verif_user_state()
     }
     pub fn check(a: [char; N], n: usize, base: Loc, rs0: u8, done0: bool, verbose: bool) {
         let mut lx = L::new_from_iter_with_state(ArrIter { a, n, i: 0 }, Log::default());
         lx.0.__verif_set_locs(base);
         %(enter)s
         lx.0.__done = done0;
-        let mut cl = lx.clone();
-        let v0 = view(&cl, &a, n);
-        assert!(view(&lx, &a, n) == v0, "[C15] the clone differs from the original right after cloning");
+        let mut cl = lx.clone();       // the clone under test
+        let witness = lx.clone();      // never touched again: the state at the clone point
+        assert!(same(&lx, &cl), "[C15] the clone differs from the original right after cloning");
         let i1 = lx.next();
-        assert!(view(&cl, &a, n) == v0 && cl.0.state().n == 0, "[C15] a call on the original changed the clone");
-        let v1 = view(&lx, &a, n);
-        let l1 = *lx.0.state();
+        assert!(same(&cl, &witness), "[C15] a call on the original changed the clone");
+        let after = lx.clone();
         let i2 = cl.next();
         #[cfg(not(kani))]
         if verbose { println!("input {:?} (n={}), rule set {}, done {}: original -> {:?}, clone -> {:?}", &a[..n], n, rs0, done0, i1, i2); }
-        assert!(i1 == i2, "[C15] the clone yields a different item than the original");
-        assert!(view(&cl, &a, n) == v1 && *cl.0.state() == l1, "[C15] the clone is in a different state than the original after the same call");
-        assert!(view(&lx, &a, n) == v1 && *lx.0.state() == l1, "[C15] a call on the clone changed the original");
+        assert!(proj(&i1) == proj(&i2), "[C15] the clone yields a different item than the original");
+        assert!(same(&cl, &lx), "[C15] the clone is in a different state than the original after the same call");
+        assert!(same(&lx, &after), "[C15] a call on the clone changed the original");
     }
 
     #[cfg(kani)]
@@ -740,34 +774,42 @@ pub mod %(name)s {
         check(a, n, base, rs0, done0, false);
     }
 }
-""" % dict(name=d["name"], prelude=PRELUDE.replace("RefItem, RefOut, ghost_locs, ", ""), lexer=lexer_text(d), enter=enter, nsets=nsets, unwind=unwind)
+""" % dict(name=d["name"], prelude=PRELUDE.replace("RefItem, RefOut, ghost_locs, rest_eq, consumed", "").replace("use super::{ArrIter, N, Log, };", "use super::{ArrIter, N, Log};"),
+           lexer=lexer_text(d), enter=enter, nsets=nsets, unwind=unwind, proj=PROJ)
 
 
 def ctor_mod(d, N, unwind):
-    """C14: the four constructors on the same characters (string of at most 2 symbolic scalar values): same items, same logs"""
+    """C14: string constructor vs iterator constructor on the same characters (at most 2 symbolic scalar values): same items, same logs;
+    `new` / `new_from_iter` start in the same state as their `_with_state(Default)` forms"""
     return """
 pub mod %(name)s {
     %(prelude)s
     %(lexer)s
-
+%(proj)s
     pub fn check(a: [char; N], n: usize, base: Loc, rs0: u8, done0: bool, verbose: bool) {
         let mut s = String::with_capacity(8);
         if n >= 1 { s.push(a[0]); }
         if n >= 2 { s.push(a[1]); }
         let n2 = if n > 2 { 2 } else { n };
-        let mut l1 = L::new(&s);
+        {
+            // the Default-state forms start exactly like the explicit-state forms
+            let d1 = L::new(&s); let d2 = L::new_with_state(&s, Log::default());
+            assert!(d1.0.__state == d2.0.__state && d1.0.__initial_state == d2.0.__initial_state && d1.0.__done == d2.0.__done && d1.0.match_loc() == d2.0.match_loc()
+                    && d1.0.__verif_user_state() == d2.0.__verif_user_state() && d1.0.__verif_last_match_is_none() && d2.0.__verif_last_match_is_none(), "[C14] new and new_with_state start differently");
+            let e1 = L::new_from_iter(ArrIter { a, n: n2, i: 0 }); let e2 = L::new_from_iter_with_state(ArrIter { a, n: n2, i: 0 }, Log::default());
+            assert!(e1.0.__state == e2.0.__state && e1.0.__initial_state == e2.0.__initial_state && e1.0.__done == e2.0.__done && e1.0.match_loc() == e2.0.match_loc()
+                    && e1.0.__verif_user_state() == e2.0.__verif_user_state() && e1.0.__verif_last_match_is_none() && e2.0.__verif_last_match_is_none(), "[C14] new_from_iter and new_from_iter_with_state start differently");
+        }
         let mut l2 = L::new_with_state(&s, Log::default());
-        let mut l3 = L::new_from_iter(ArrIter { a, n: n2, i: 0 });
         let mut l4 = L::new_from_iter_with_state(ArrIter { a, n: n2, i: 0 }, Log::default());
         let mut k = 0;
-        while k < 3 {
-            let (i1, i2, i3, i4) = (l1.next(), l2.next(), l3.next(), l4.next());
+        while k < 2 {
+            let (i2, i4) = (l2.next(), l4.next());
             #[cfg(not(kani))]
-            if verbose { println!("call {}: new {:?} | new_with_state {:?} | new_from_iter {:?} | new_from_iter_with_state {:?}", k, i1, i2, i3, i4); }
-            assert!(i1 == i2, "[C14] new and new_with_state disagree");
-            assert!(i1 == i3, "[C14] new and new_from_iter disagree");
-            assert!(i1 == i4, "[C14] new and new_from_iter_with_state disagree");
-            assert!(*l1.0.state() == *l3.0.state() && *l2.0.state() == *l4.0.state() && *l1.0.state() == *l2.0.state(), "[C14] action logs disagree between constructors");
+            if verbose { println!("call {}: new_with_state {:?} | new_from_iter_with_state {:?}", k, i2, i4); }
+            assert!(proj(&i2) == proj(&i4), "[C14] string input and iterator input disagree on an item");
+            assert!(l2.0.__verif_user_state() == l4.0.__verif_user_state(), "[C14] action logs disagree between constructors");
+            assert!(l2.0.match_loc() == l4.0.match_loc() && l2.0.__done == l4.0.__done && l2.0.__state == l4.0.__state, "[C14] lexer registers disagree between constructors");
             k += 1;
         }
     }
@@ -781,7 +823,8 @@ pub mod %(name)s {
         check(a, n, Loc { line: 0, col: 0, byte_idx: 0 }, 0, false, false);
     }
 }
-""" % dict(name=d["name"], prelude=PRELUDE.replace("RefItem, RefOut, ghost_locs, rest_eq", "").replace("use super::{ArrIter, N, Log, };", "use super::{ArrIter, N, Log};"), lexer=lexer_text(d), unwind=unwind)
+""" % dict(name=d["name"], prelude=PRELUDE.replace("RefItem, RefOut, ghost_locs, rest_eq, consumed", "").replace("use super::{ArrIter, N, Log, };", "use super::{ArrIter, N, Log};"),
+           lexer=lexer_text(d), unwind=unwind, proj=PROJ)
 
 
 def crate_main(defs, N, LOGM):
@@ -791,9 +834,9 @@ def crate_main(defs, N, LOGM):
         form = d.get("form", "step")
         if form == "termination":
             out.append(termination_mod(d, N, unwind))
-        elif form == "clone":
+        elif form == "clone_pair":
             out.append(clone_mod(d, N, unwind))
-        elif form == "ctor":
+        elif form == "ctor_pair":
             out.append(ctor_mod(d, N, unwind))
         else:
             out.append(harness_mod(d, N, m, unwind, sw))
